@@ -20,7 +20,7 @@ TRUSTED = [
     "proofs: ConcTowerProofs.v (structural theorem g_thread: a guarantee of the ~20 primitive actions lifts to every action of every "
     "thread program; instances: SQL-statement sequences / DbInv, lock_protects_data; mutual exclusion; invariance over all schedules), "
     "ConcBreach.v (Owicki-Gries outline of add_appointment || block connected: accepted_then_watched_or_gone), ConcLin.v (read-only "
-    "threads; witnesses by vm_compute)",
+    "threads; witnesses by vm_compute), ConcReg.v (any number of concurrent registrations are linearizable)",
     "the tie of the thread programs to the code: hook H3 (teos/src/verif_sync.rs) in CONTROLLED mode — harness/src/bin/conc parks "
     "every thread in before_acquire and grants one lock request at a time, so a schedule (one thread index per lock "
     "acquisition) is replayed exactly on the real Gatekeeper/Watcher/Responder/Carrier/InternalAPI (harness/src/world.rs, "
